@@ -34,7 +34,7 @@ def worker(case, led):
     else:
         nb = n_nodes
         created = [T.make_basis("spin" if flavour == "spin" else ("spinqn" if flavour == "spinqn" else ("e" if i % 2 == 0 else "sho")),
-                                f"{'s' if flavour != 'holstein' else ('e' if i % 2 == 0 else 'v')}{i}") for i in range(nb)]
+                                f"{'s' if flavour != 'holstein' else ('e' if i % 2 == 0 else 'v')}{i}", rng) for i in range(nb)]
         ctor = kind
         if ctor == "linear":
             bt = BasisTree.linear(created)
@@ -61,8 +61,23 @@ def worker(case, led):
     dims = [b.nbas for b in created]
     if int(np.prod(dims)) > 600:
         return
-    for trial in range(2 if tier == "quick" else 5):
-        terms = real_terms(model, rng, int(rng.integers(1, 6)))
+    ntr = 2 if tier == "quick" else 5
+    for trial in range(ntr + 1):
+        if trial < ntr:
+            terms = real_terms(model, rng, int(rng.integers(1, 6)))
+        else:
+            # degenerate term tables (C01's corner cases): multiples of the identity, identities on different dofs, a term and its negative plus a constant
+            from renormalizer.model import Op
+            d0, d1 = created[0].dofs[0], created[-1].dofs[0]
+            zero = [0] * model.qn_size if model.qn_size > 1 else 0
+            pick = int(rng.integers(3))
+            if pick == 0:
+                terms = [Op("I", d0, 2.5)]
+            elif pick == 1:
+                terms = [Op("I", d0, 0.5), Op("I", d1, 0.7)]
+            else:
+                base = real_terms(model, rng, 1)
+                terms = ([base[0], base[0] * (-1.0)] if base else []) + [Op("I", d1, 2.0)]
         if not terms:
             continue
         ref = U.dense_terms(model, terms).real
